@@ -13,6 +13,9 @@ def check(run):
     shards = 8      # real time: limited parallelism so that load cannot fake a slow return
     traces = run.drive('TestDriveC19', shards, lambda i: dict(VERIF_SEED=run.seed, VERIF_SHARD=i, VERIF_SHARDS=shards, VERIF_N=run.pick(1, 5)),
                        'c19', parallel=8, timeout=3000, crash_formula='C19_NoPanicObs')
+    if run.violations and not traces:
+        # every driver process died inside fan2go code before it could record anything: that is the observation
+        return run.finish('exploration', 'driver processes died of a panic raised inside fan2go code', dict(evaluations=0, distinct_nontrivial=0), [])
     run.sample_from(traces[0], 3)
     run.validate('Rec_Exec', recfam.rec_cfg('Rec_Exec', INV), traces, 'rec', parallel=8)
     import os
@@ -32,7 +35,7 @@ def check(run):
                 modes.add(e['mode'])
                 if e['dur'] >= e['timeout']:
                     slow += 1
-    if len(modes) < 17 or slow < 8:
+    if (len(modes) < 17 or slow < 8) and not run.violations:
         raise vlib.Infra('vacuous: %d failure modes, %d calls that ran into their deadline' % (len(modes), slow))
     run.cov['traces_validated_against_impl'] = n
     return run.finish('exploration',
